@@ -15,7 +15,7 @@ RULE = ("E1 discrete: every multiset of <=k rows over (X,Y,Z1[,Z2]) plus exactly
         "E1 continuous: integer-valued 5-row frames built from a pool of column vectors, shifts {+1,-1,+10} and scales {2,1/2} of "
         "each variable: pearsonr with |Z| in {0,1,2} == Pearson on least-squares residuals with intercept, invariant under the "
         "affine maps. non-trivial = distinct data sets with >=2 non-degenerate strata, or a degenerate stratum, or a zero cell")
-BOUNDS = {"quick": "domains (3,2,2): multisets of <=4 rows (1819); (2,2,2,2): <=3 rows (968); 60 independent tables; continuous: 6^3 column triples + 120 with Z2",
+BOUNDS = {"quick": "domains (3,2,2): multisets of <=4 rows (1819); (2,2,2,2): <=3 rows (968); 60 independent tables; 18 heterogeneous tables (one dependent stratum among independent ones); continuous: 6^3 column triples + 120 with Z2",
           "thorough": "multisets of <=5 rows / <=4 rows; lambda grid on all; domains (3,3,2) and (2,2,3) with <=4 rows, (2,3,2,2) with <=3 rows"}
 EXHAUSTIVE = {"quick": True, "thorough": True}
 ASSUMPTIONS = ["scipy.stats.chi2.sf / t.sf and numpy.linalg.lstsq are trusted", "lambda<0 statistics are compared only on tables without zero cells (undefined otherwise)",
@@ -39,6 +39,7 @@ def groups(tier, seed):
         for i in range(0, len(sets), 60):
             out.append({"part": "disc", "dom": list(dom), "sets": [list(s) for s in sets[i:i + 60]]})
     out.append({"part": "indep"})
+    out.append({"part": "hetero"})
     for i in range(6):
         out.append({"part": "cont", "xi": i})
     return out
@@ -51,6 +52,8 @@ def run_group(g, tier):
             _disc(st, g["dom"], s)
     elif g["part"] == "indep":
         _indep(st)
+    elif g["part"] == "hetero":
+        _hetero(st)
     else:
         _cont(st, g["xi"])
     return st
@@ -62,6 +65,8 @@ def replay(case):
         _disc(st, case["dom"], case["set"], cat=case.get("cat", False), table=case.get("table"))
     elif case["part"] == "indep":
         _indep(st)
+    elif case["part"] == "hetero":
+        _hetero(st)
     else:
         _cont(st, case["xi"])
     keys = ("site", "test", "Z", "variant", "cols")
@@ -246,6 +251,32 @@ def _indep(st):
                 chi, dof, zero, nondeg, _ = ref_stat(rows, 0, 1, [2], 1.0)
                 assert abs(chi) < 1e-12, (rows, chi)
     st.bump("independent-tables", k)
+
+
+def _hetero(st):
+    """heterogeneous strata: ONE strongly dependent 2x2 stratum (first or last in sort order) among exactly independent 3x3
+    strata. The total statistic is the sum over strata and the degrees of freedom add up, so a prefix of the strata can be
+    significant while the whole test is not: the verdict has to be taken from the complete sum"""
+    k = 0
+    for dep in ([[8, 1], [1, 8]], [[6, 0], [0, 6]], [[5, 2], [1, 6]]):
+        for nind in (2, 3, 5):
+            for where in ("first", "last"):
+                strata = [(z1, z2) for z1 in range(2) for z2 in range(3)][:nind + 1]
+                dpos = strata[0] if where == "first" else strata[-1]
+                rows = []
+                for zi, z in enumerate(strata):
+                    if z == dpos:
+                        for i in range(2):
+                            for j in range(2):
+                                rows += [(i, j) + z] * dep[i][j]
+                    else:
+                        rx, ry = ((1, 2, 1), (2, 1, 1)) if zi % 2 else ((1, 1, 2), (1, 2, 1))
+                        for i, ca in enumerate(rx):
+                            for j, cb in enumerate(ry):
+                                rows += [(i, j) + z] * (ca * cb)
+                k += 1
+                _disc(st, [3, 3, 2, 3], [], table=rows)
+    st.bump("heterogeneous-tables", k)
 
 
 # ------------------------------------------------------------------ continuous
